@@ -138,8 +138,15 @@ def matcher(rng, ctrs, force_label=None):
     else:
         cand = [x.decode("utf-8", "replace") for x in vals if x and pyre.fullmatch(rb"[A-Za-z0-9:_ /.\-]+", x)] or ["x"]
         w = rng.choice(cand)
-        shape = rng.randrange(6)
-        if shape == 0:
+        shape = rng.randrange(8)
+        own_anchors = False
+        if shape >= 6:
+            # the user's own ^ and $ around a top-level alternation: ^web|db$ is still fully anchored as a whole, (?:^web|db$) between ^ and $,
+            # i.e. exactly web or db - not "starts with web or ends in db"
+            w2 = rng.choice(cand)
+            n = ("alt", ("lit", B(w)), ("lit", B(w2))); src = pyre.escape(w) + "|" + pyre.escape(w2)
+            own_anchors = True
+        elif shape == 0:
             n = ("lit", B(w)); src = pyre.escape(w)
         elif shape == 1:
             n = ("lit", B(w[:1])); src = pyre.escape(w[:1])              # anchoring probe: a proper prefix must not match
@@ -153,6 +160,8 @@ def matcher(rng, ctrs, force_label=None):
         else:
             n = ("plus", ("any",)); src = ".+"
         gosrc = egen.Rx.src(n)
+        if own_anchors:
+            gosrc = "^" + gosrc + "$"
         rx = {"src": gosrc, "coq": "(rx false %s false)" % egen.Rx.coq(n)}
         text = gosrc
         cre = pyre.compile(src.encode(), pyre.S) if False else pyre.compile(src.encode())
